@@ -766,7 +766,7 @@ def translate_clean(en):
     mtxt = _ws(ast.unparse(assigns["missing"][0]))
     if mtxt == "not lo_consuming_path.exists()":
         missing_follows = True
-    elif mtxt == "not lo_consuming_path.lexists()":
+    elif mtxt == "not os.path.lexists(lo_consuming_path)":   # (path.Path has no lexists method)
         missing_follows = False
     else:
         raise TranslatorError(f"clean.clean: test for a missing path not understood: {mtxt!r}")
